@@ -252,7 +252,7 @@ def run_derivatives(ctx: Ctx) -> None:
         _guard(ctx, "T5.batch-spacing", f"D={D}:unordered rows", fS, f"D={D} per-batch spacing rows not in ascending order", thb2)
 
         # bspline mode
-        for stride in (1, 2):
+        for stride in (1, 2, (2, 3) if D == 2 else (3, 1, 2)):  # scalar and per-axis (sx, sy, ...) strides
             def ths(D=D, stride=stride):
                 reset_relations()
                 facts = fresh_facts()
@@ -267,7 +267,8 @@ def run_derivatives(ctx: Ctx) -> None:
                 sp = STensor.from_nested([h, [x * 3 for x in h]])
                 d = it.call(fS, c, mode="bspline", order=1, spacing=sp, stride=stride)
                 d2 = it.call(fS, c, mode="bspline", order=2, spacing=sp, stride=stride)
-                nout = [(n - 3) * stride for n in cshape]
+                st = [stride] * D if isinstance(stride, int) else list(stride)  # (x, y, ...) order
+                nout = [(n - 3) * st[D - 1 - ta] for ta, n in enumerate(cshape)]
                 for key, t in list(d.items()) + list(d2.items()):
                     if list(t.shape[2:]) != nout:
                         return False, f"bspline mode output shape {tuple(t.shape)} expected spatial {nout}"
@@ -279,12 +280,12 @@ def run_derivatives(ctx: Ctx) -> None:
                         hh = h[j] * (1 if n == 0 else 3)
                         for ch in range(D):
                             for ix in itertools.product(*[range(s) for s in nout]):
-                                p = [1 + Fraction(ix[D - 1 - a], stride) for a in range(D)]
+                                p = [1 + Fraction(ix[D - 1 - a], st[a]) for a in range(D)]
                                 want = coef["A"][ch][j]
                                 for k in range(D):
                                     q = coef["Q"][ch][min(j, k)][max(j, k)]
                                     want = want + q * p[k] * (2 if k == j else 1)
-                                want = want * fac / (hh * stride) * stride
+                                want = want * fac / hh
                                 got = to_rat(t[(n, ch) + ix].flat()[0])
                                 if not got.equals(want):
                                     return False, (f"bspline d/d{LETTERS[j]} (stride={stride}) item {n} channel {ch} at {ix}: {got} expected {want} "
@@ -301,6 +302,20 @@ def run_derivatives(ctx: Ctx) -> None:
                             bad = all_equal(t[0:1, ch:ch + 1], want)
                             if bad:
                                 return False, f"bspline second derivative {key} channel {ch}: {bad}"
+                # the flow-level entry point: all second-order keys without `which`, and mixed keys in either spelling
+                fd = it.call(F_["flow_derivatives"], c, mode="bspline", order=2, spacing=sp, stride=stride)
+                if D >= 2:
+                    swapped = [f"d{CH[ch]}/d{LETTERS[1]}{LETTERS[0]}" for ch in range(D)]
+                    fs = it.call(F_["flow_derivatives"], c, mode="bspline", which=swapped, spacing=sp, stride=stride)
+                    for ch in range(D):
+                        a_ = fd.get(f"d{CH[ch]}/d{LETTERS[0]}{LETTERS[1]}", fd.get(swapped[ch]))
+                        b_ = fs.get(swapped[ch])
+                        if a_ is None or b_ is None:
+                            return False, f"flow_derivatives(mode='bspline'): mixed key {swapped[ch]} missing ({sorted(fd)[:6]} / {sorted(fs)})"
+                        if not teq(a_, b_):
+                            return False, f"flow_derivatives(mode='bspline'): {swapped[ch]} differs from the xy spelling"
+                        if not teq(a_[0:1], d2[LETTERS[0] + LETTERS[1]][0:1, ch:ch + 1]) if (LETTERS[0] + LETTERS[1]) in d2 else False:
+                            return False, "flow_derivatives(mode='bspline') mixed derivative differs from spatial_derivatives"
                 return True, ""
             _guard(ctx, "T5.bspline", f"D={D}:stride={stride}", fS, f"D={D} bspline mode stride={stride}", ths)
 
